@@ -119,6 +119,9 @@ def gen_cases(seed, n, prefix="g"):
             # a multi-step build: after the edges, one or two existing nodes are re-added (add_node on an existing
             # name = attribute update); the components and searches must not change
             case["readd"] = [names[(7 * i + k) % len(names)] for k in range(1 + i % 2)]
+            if i % 10 == 7:
+                # ... and a NEW isolated node is added that way too (the component functions are asked before and after)
+                case["readd"].append(absent + 5)
         out.append(case)
     return out
 
